@@ -34,6 +34,7 @@ NCPU = int(os.environ.get("XRLV_JOBS", str(os.cpu_count() or 4)))
 MEM_KB = int(os.environ.get("XRLV_MEM_KB", str(12 * 1024 * 1024)))  # ulimit -v per tool process
 
 _slots = threading.BoundedSemaphore(NCPU)
+_alloc_lock = threading.Lock()
 _print_lock = threading.Lock()
 
 
@@ -428,6 +429,9 @@ def _portfolio(g, binary, backends, timeout, props=None, trace=False, tagsuffix=
     wd = os.path.dirname(binary)
     t0 = time.time()
     acquired = 0
+    # the slots of one portfolio are taken under a lock: two portfolios each holding part of what they need while
+    # waiting for the rest would dead-lock the pool
+    _alloc_lock.acquire()
     for be in backends:
         _slots.acquire()
         acquired += 1
@@ -440,6 +444,7 @@ def _portfolio(g, binary, backends, timeout, props=None, trace=False, tagsuffix=
         with _pg_lock:
             _pgids.add(p.pid)
         procs.append({"be": be, "p": p, "out": outp, "fo": fo, "fe": fe, "cmd": cmd, "done": False, "released": False})
+    _alloc_lock.release()
     winner = None
     reasons = []
     try:
@@ -538,8 +543,15 @@ def run_group(sc, g):
         # counterexample of the original obligation.  A SUCCESS of this run proves nothing and is discarded.
         try:
             rb = build_binary(sc, g, extra_defines=["-D" + g.restrict_retry])
-            w2, r2 = _portfolio(g, rb, ["sat"], min(g.timeout, 120), props=proof_ids, tagsuffix="-concrete")
-            if w2 is not None and any(p["status"] == "FAILURE" and p["property"] in set(proof_ids) for p in w2[1]):
+            # the SAT back end gives every out-of-bounds read a fresh value (the SMT array theory does not): a refutation is
+            # only believed if the same run, with bounds and pointer checks on, has no failing memory-safety property
+            g2 = Group(g.name, g.kind, g.entry, flags=g.flags + ["--bounds-check", "--pointer-check"], unwind=g.unwind, no_safety=True,
+                       object_bits=g.object_bits)
+            w2, r2 = _portfolio(g2, rb, ["sat"], min(g.timeout, 120), tagsuffix="-concrete")
+            memfail = w2 is not None and any(p["status"] == "FAILURE" and re.search(r"\.(array_bounds|pointer_dereference)\.", p["property"]) for p in w2[1])
+            if memfail:
+                reasons.append("refutation pre-pass discarded: it reaches an out-of-bounds or invalid read")
+            if w2 is not None and not memfail and any(p["status"] == "FAILURE" and p["property"] in set(proof_ids) for p in w2[1]):
                 # keep only the failures; everything else is decided by the real query below
                 fails = {p["property"]: p for p in w2[1] if p["status"] == "FAILURE" and p["property"] in set(proof_ids)}
                 res.refuted = fails
